@@ -14,6 +14,7 @@ import (
 	"os/exec"
 	"path/filepath"
 	"regexp"
+	"slices"
 	"strings"
 
 	"github.com/roddhjav/apparmor.d/pkg/util"
@@ -111,6 +112,10 @@ func GetJournalctlLogs(path string, since string, useFile bool) (io.Reader, erro
 		}
 	}
 
+	// A truncated or garbled line must not hide the other records
+	jctlRaw = slices.DeleteFunc(jctlRaw, func(line string) bool {
+		return !json.Valid([]byte(line))
+	})
 	jctlStr := "[" + strings.Join(jctlRaw, ",\n") + "]"
 	if err := json.Unmarshal([]byte(jctlStr), &logs); err != nil {
 		return nil, err
